@@ -39,6 +39,14 @@ CHECKS["C10"] = dict(
     technique="bounded symbolic execution (loops unrolled) of the real trim code with contract stubs + z3 obligations; replay on real code",
     ref="5/C10")
 
+CHECKS["C11"] = dict(
+    text="Twin runs of every analysis (solve_forces, the four derivative families, aero_center, distributions, the three trims) on a scene with symbolic uniform wind W and "
+         "Earth-fixed velocity v versus still air (exact zero wind) with velocity v - W, for both state encodings; the lifting-line solve is an uninterpreted function of the "
+         "air-relative stored state; z3 decides equality of every result key. Kernel-level lemma (real flow-property / residual / integration code) is added by checks/kernel.py when present.",
+    note="LLsolve keyed on air-relative state (kernel lemma); AeroADT; uniform wind only (as the property states); loops unrolled once.",
+    technique="relational (twin-run) bounded symbolic execution of the real analyses + z3 equality obligations; replay on real code",
+    ref="5/C11")
+
 NOT_APPLICABLE = {
     "C18": "classical lifting-line limits: a convergence statement about the N>=20 discrete solution (value and rate under grid refinement); no bounded SMT encoding of the 40x40 transcendental system is within reach and the small N the engine handles is where the claim is not expected to hold",
 }
